@@ -1149,7 +1149,7 @@ fn main() {
         max_depth: depth,
     };
     let searches: Vec<(&str, Bounds)> = if ctx.quick() {
-        vec![("core", core(4)), ("ignored-dir", ignored_dir(6))]
+        vec![("core", core(3)), ("ignored-dir", ignored_dir(6))]
     } else {
         vec![("core", core(5)), ("ignored-dir", ignored_dir(10)), ("wide", wide(4))]
     };
